@@ -112,7 +112,17 @@ def main():
     def built(f):
         v, vo = os.path.join(lib.COQ, f), os.path.join(lib.COQ, f[:-2] + '.vo')
         return os.path.exists(vo) and os.path.getmtime(vo) >= os.path.getmtime(v)
-    discharged = len([o for o in obligations if built(o.split(':')[0])])
+    failed_files = set()
+    if not ok_build and not a.no_build:
+        failed_files = set(re.findall(r'File "\./([^"]+)"', log)) | {f'Props/{prop}.v'}
+        # files that (transitively) import a failed file were not rebuilt either
+        for f in cone:
+            try:
+                if any(ff in lib.dep_cone(f) for ff in failed_files if ff != f):
+                    failed_files.add(f)
+            except Exception:
+                failed_files.add(f)
+    discharged = len([o for o in obligations if built(o.split(':')[0]) and o.split(':')[0] not in failed_files])
     if ok_build:
         ok_as, as_out, assumptions = assumptions_of(prop)
         for blk in assumptions:
@@ -147,6 +157,22 @@ def main():
                 violations += found
         except Exception as e:  # the search is best effort
             ctx['notes'].append('search failed: ' + repr(e)[:300])
+    if broken and not violations and not a.no_build:
+        # generic directed search: a proof or the correspondence broke but the Spec oracle saw nothing on this run's cases -
+        # look harder (the thorough generator, then another seed) for an input on which the property itself fails
+        for extra_tier, extra_seed in (('thorough', seed), ('thorough', seed + 1000003)):
+            try:
+                ctx2 = dict(prop=prop, tier=extra_tier, seed=extra_seed, notes=[])
+                r2 = mod.run(ctx2)
+                res['search_evaluations'] = res.get('search_evaluations', 0) + int(r2.get('evaluations', 0))
+                if r2.get('violations'):
+                    for v in r2['violations']:
+                        v['how_found'] = (v.get('how_found') or '') + f' [found by the directed search: tier {extra_tier}, seed {extra_seed}, after a proof/tie broke]'
+                    violations += r2['violations']
+                    break
+            except Exception as e:
+                ctx['notes'].append('directed search failed: ' + repr(e)[:200])
+                break
     known = load_known()
     exit_code = 0
     reported = 0
